@@ -109,4 +109,26 @@ example : ∃ a b c : PR String, b.truthy = true ∧ c.truthy = true ∧
   ⟨{ toks := ["1"], dict := [("x", [("1", 0)])], all := [] }, { toks := ["2"], dict := [("y", [("2", 0)])], all := [] },
    { toks := ["3"], dict := [("x", [("3", 0)])], all := [] }, by decide, by decide, by decide +kernel, by decide +kernel⟩
 
+/-- **One round of the loop of `from_dict`** on the full model: `ret += cls([tok-ish], name=k, …)` with a name `k`
+    that `ret` does not have yet appends the one token, puts `k` after the existing names with exactly the one value,
+    and changes nothing else.  (This is what the tree model `PPModel/Mod/PRFromDict.lean` takes for granted.) -/
+theorem from_dict_item_step (s : PR α) (k : String) (tok val : α) (hk : k ∉ dkeys s.dict) :
+    abs (iadd s { toks := [tok], dict := [(k, [(val, 0)])], all := [] }) =
+      { toks := s.toks ++ [tok], order := (abs s).order ++ [k],
+        vals := fun k' => if k' = k then [val] else (abs s).vals k', la := (abs s).la } := by
+  have ho : PRInv ({ toks := [tok], dict := [(k, [(val, 0)])], all := [] } : PR α) :=
+    ⟨by simp [dkeys], by simp⟩
+  rw [abs_iadd s _ ho]
+  have hnone : dget s.dict k = none := (dget_none_iff _ _).mpr hk
+  apply Abs.ext'
+  · rfl
+  · show dkeys s.dict ++ List.filter (fun x => decide (x ∉ dkeys s.dict)) [k] = dkeys s.dict ++ [k]
+    simp [List.filter_cons, hk]
+  · intro k'
+    by_cases h : k' = k
+    · subst h; simp [Abs.merge, abs, dget, hnone]
+    · have h' : ¬ k = k' := fun e => h e.symm
+      simp [Abs.merge, abs, dget, h, h']
+  · intro k'; simp [Abs.merge, abs]
+
 end PP.PR
